@@ -1,5 +1,5 @@
 import sys, importlib
-sys.path.insert(0,'/verif')
+sys.path.insert(0, str(__import__("pathlib").Path(__file__).resolve().parent.parent))
 from sa.context import Ctx
 from sa.core import Report
 prop=sys.argv[1]; root=sys.argv[2] if len(sys.argv)>2 else '/repo'
